@@ -10,6 +10,7 @@ import (
 	clock "lunar/toolkit-core/clock"
 	context_manager "lunar/toolkit-core/context-manager"
 	"lunar/toolkit-core/otel"
+	"lunar/toolkit-core/verifhook"
 	"time"
 
 	lunar_metrics "lunar/engine/metrics"
@@ -151,7 +152,9 @@ func (p *queueProcessor) enqueue(flowName string, apiStream publictypes.APIStrea
 	// Wait until request is processed or TTL expires
 	p.updateMetrics(flowName, apiStream, req, true, false)
 
-	if req.Wait() {
+	verdict := req.Wait()
+	verifhook.Event("queue.verdict", p.name, req.GetID(), fmt.Sprint(verdict), "")
+	if verdict {
 		p.logger.Trace().Str("requestID", req.GetID()).
 			Msgf("Request processing completed")
 		p.updateHistogramMetric(flowName, apiStream, req, false)
@@ -393,6 +396,7 @@ func (p *queueProcessor) enqueueIfSlotAvailable(req *Request) bool {
 		return false
 	}
 
+	verifhook.Yield("queue.slot-checked", req.GetID())
 	p.requestsWatcher.AddRequest(req)
 
 	p.logger.Trace().Str("requestID", req.GetID()).Msg("Slot available, enqueuing")
@@ -402,6 +406,7 @@ func (p *queueProcessor) enqueueIfSlotAvailable(req *Request) bool {
 		return false
 	}
 
+	verifhook.Event("queue.registered", p.name, req.GetID(), "", "")
 	return true
 }
 
@@ -517,6 +522,7 @@ func (p *queueProcessor) validateProcessingTimeoutIsGreaterTheTTL() error {
 }
 
 func (p *queueProcessor) removeRequest(reqID string) {
+	verifhook.Yield("queue.before-remove", reqID)
 	p.requestsWatcher.RemoveFromWatchList(reqID)
 	p.queue.Remove(reqID)
 }
